@@ -77,6 +77,7 @@ func runC10(r *Result, thorough bool) {
 	for ri := 0; ri < runs; ri++ {
 		n := 3 + rng.Intn(3)
 		cl := newCluster(rng, n, 10000, nil)
+		cl.spellJoins = true
 		steps := 350 + rng.Intn(250)
 		var joiners []*member
 		refusedKeys := []string{}
